@@ -63,6 +63,16 @@ CHECKS = {
         note=TB + " Partial: invariant preservation is a theorem for the heap primitives and 3 handler families, not yet for all 94 opcodes (those are covered by lock-step comparison against the model and by the audit of the implementation's own state); hashmaps, floats and extern calls are outside the model.",
         technique="Lean 4 proof (well-founded recursion, counting invariants) + lock-step differential correspondence with heap audit (hook H2)",
         design="6/C14"),
+    "C15": dict(
+        text=("Lean 4 theorem, unbounded: for every transferable value (int, float bit pattern, bool, string of any bytes and any length below "
+              "4 GiB, opaque handle, void, arbitrarily nested and empty arrays) what cop_serialize_value writes into any buffer it fits decodes with "
+              "cop_deserialize_value to exactly that value, consuming exactly those bytes, whatever follows in the buffer (cop_roundtrip, mutual "
+              "structural induction over values and element lists, tags regenerated from isa.h). The codec model is tied to the C functions by "
+              "correspondence on generated values at buffer sizes around their exact size (succeeds iff it fits) and on hostile decoder inputs; "
+              "transparency of --isolate-ffi is checked end to end on extern-calling programs with 0..64 KiB string arguments."),
+        note=TB + " Partial: only the value codec is proved; that the client builds requests for any argument size and that both sides call the same function is observed end to end, not modelled.",
+        technique="Lean 4 proof (mutual structural induction) + translator + differential correspondence + paired execution",
+        design="6/C15"),
 }
 
 NOT_APPLICABLE = {
